@@ -147,7 +147,7 @@ func (lc *libCheck) run(a *artefacts, tier string, seed uint64) int {
 		"tree":                 a.Hash,
 	}
 	if extra != nil {
-		cov["command_level_workload"] = extra
+		cov["additional_phase"] = extra
 	}
 	var zero []string
 	for k, v := range probes {
